@@ -166,17 +166,31 @@ def parent_label(C, e: ast.AST, n: str, label_names: set[str]):
         if len(e.args) == 1 and not e.keywords and parent_of(e.args[0], n):
             return ("mapping", e.func.value.id, norm(e, 60), e.args[0])
         return ("odd", f"`{norm(e, 60)}` reads a label in a form that is not recognised as 'the label of the parent of `{n}`'")
-    rc = recursive_label_call(C, e)
+    rc = parent_recursion(C, e, n)
     if rc is not None:
-        f, j = rc
-        if parent_of(e.args[j], n):
-            return ("recursion", f, norm(e, 60), e.args[j])
-        return ("odd", f"`{norm(e, 60)}` computes the label of something that is not recognised as the parent of `{n}`")
+        return ("recursion", rc[0], norm(e, 60), e.args[rc[1]])
     return None
 
 
-def has_recursive_call(C, v: ast.AST) -> bool:
-    return any(isinstance(x, ast.Call) and recursive_label_call(C, x) is not None for x in ast.walk(v))
+def parent_recursion(C, e: ast.AST, n: str | None):
+    """`e` is the label function's call of itself *for the parent of n*: the one argument that changes is the parent of `n`, and no
+    other argument depends on `n` (a recursion that keeps the module's name and walks a second parameter upwards is a search for the
+    aliased ancestor, not the label of the parent)  ->  (FuncInfo, index) | None"""
+    rc = recursive_label_call(C, e) if n is not None else None
+    if rc is None:
+        return None
+    f, j = rc
+    M: Model = C.M
+    if not parent_of(M.resolve(e.args[j]), n):
+        return None
+    for i, a in enumerate([*e.args, *[k.value for k in e.keywords]]):
+        if i != j and any(_is_name(x, n) for x in ast.walk(M.resolve(a))):
+            return None
+    return f, j
+
+
+def has_recursive_call(C, v: ast.AST, n: str | None) -> bool:
+    return any(isinstance(x, ast.Call) and parent_recursion(C, x, n) is not None for x in ast.walk(v))
 
 
 def reads_label(C, v: ast.AST, label_names: set[str], n: str | None) -> bool:
@@ -188,7 +202,7 @@ def reads_label(C, v: ast.AST, label_names: set[str], n: str | None) -> bool:
         if isinstance(x, ast.Call) and isinstance(x.func, ast.Attribute) and x.func.attr == "get" and isinstance(x.func.value, ast.Name) and x.func.value.id in label_names and x.args:
             if not (n is not None and _is_name(x.args[0], n)):
                 return True
-    return has_recursive_call(C, v)
+    return has_recursive_call(C, v, n)
 
 
 def parse_inductive(C, v: ast.expr, n: str, label_names: set[str]):
